@@ -315,8 +315,14 @@ package kafka
 //@   callsite (*batchQueue).Get ensures result != nil ==> ptw.$inflight
 //@   loop 0 invariant !ptw.$inflight
 //@ property C08 C07 C01 C10
+// The lazily created stats block of a Writer built as a struct literal is published through w.once: the field is read by
+// stats() itself only after once.Do returned (a check outside Do would race with the write another goroutine makes inside)
+//@ type Writer
+//@   fieldread writerStats requires (&self.once).$onced
 //@ func (*Writer).stats
-//@   trusted statistics only
+//@   option noframe
+//@   modifies heap
+//@   ensures result == result
 //@ func (*summary).observe
 //@   trusted statistics only (atomic counters)
 
